@@ -324,6 +324,10 @@ type PrintEvent struct {
 // PrintLog (intrinsic): the fmt.Fprintf calls made so far; natively nil (the harness parses the text).
 func PrintLog() []PrintEvent { return nil }
 
+// ExploreMapOrderIn (intrinsic): from now on map iteration orders are explored only inside the named
+// functions (full SSA names); everywhere else the insertion order is used. No names: everywhere again.
+func ExploreMapOrderIn(funcs ...string) {}
+
 // NoOrderLemma (intrinsic): explore every map order also inside the functions covered by an order lemma
 // (used by the lemma harnesses themselves).
 func NoOrderLemma(on bool) {}
